@@ -120,7 +120,28 @@ impl ScmpMessage {
     #[inline]
     pub fn try_from_slice(bytes: &[u8]) -> Result<(Self, &[u8]), ViewConversionError> {
         let (view, rest) = ScmpPayloadView::try_from_slice(bytes)?;
-        Ok((Self::from_view(&view.message()), rest))
+        Ok((Self::try_from_view(&view.message())?, rest))
+    }
+
+    /// Create a new SCMP message from a view, refusing messages the model cannot hold.
+    ///
+    /// Interface ids are 64 bit fields on the wire but 16 bit values in the model (as in hop
+    /// fields). [`Self::from_view`] truncates them; this conversion returns an error instead, so
+    /// that a decoded message always encodes back to the bytes it was decoded from.
+    pub fn try_from_view(view: &ScmpMessageView) -> Result<Self, ViewConversionError> {
+        const ERR: ViewConversionError =
+            ViewConversionError::Other("SCMP interface id does not fit into 16 bits");
+        let fits = |id: u64| id <= u16::MAX as u64;
+        match view {
+            ScmpMessageView::ExternalInterfaceDown(v) if !fits(v.interface_id()) => Err(ERR),
+            ScmpMessageView::InternalConnectivityDown(v)
+                if !fits(v.ingress_interface_id()) || !fits(v.egress_interface_id()) =>
+            {
+                Err(ERR)
+            }
+            ScmpMessageView::TracerouteReply(v) if !fits(v.interface_id()) => Err(ERR),
+            _ => Ok(Self::from_view(view)),
+        }
     }
 
     /// Create a new SCMP message from a view.
